@@ -249,4 +249,75 @@ def jobs(prog, tier):
             for nseg in (1, 2):
                 for sizes in size_grid(tier):
                     js.append(('ss request[N=%d,%s,%s,segments=%d,writes=%s]' % (N, kind, akind, nseg, '+'.join(map(str, sizes))), make_ss_request_job(N, kind, akind, tier, nseg, sizes), 1800))
+    for akind in ('v4', 'domain'):
+        for nseg in (1, 2):
+            for sizes in ((0, 5), (7, 33)):
+                js.append(('trojan request[%s,segments=%d,writes=%s]' % (akind, nseg, '+'.join(map(str, sizes))), make_trojan_request_job(akind, nseg, sizes), 900))
     return js
+
+
+# --------------------------------------------------------------------------- Trojan: real client encoder -> real server decoder
+def make_trojan_request_job(akind, nseg, sizes):
+    def job(ctx):
+        from . import c06
+        prog = ctx.prog
+        case = decoders.trojan_cases(prog)[0]
+        ex = case.new_exec(ctx)
+        c06.exact_hex_decode(ex)
+        digest = case.st0['#self'].fields[0]
+        # the client holds the lower-case hex of the same SHA-224 digest the server stores (both hash the configured password)
+        hexkey = z3.Array('client_hex_key', BV64, BV8)
+        pcs = list(case.pcs)
+        for i in range(28):
+            b = z3.Select(digest.arr, bv64(i))
+            for k, nib in ((0, z3.LShR(b, 4)), (1, b & 0x0f)):
+                pcs.append(z3.Select(hexkey, bv64(2 * i + k)) == z3.If(z3.ULT(nib, 10), nib + 0x30, nib + 0x57))
+        addr, apcs, ains = c14.sym_address(akind)
+        if akind == 'domain':
+            addr = Enum(bv64(0), {'Domain': (Buf('string', ains['host'].arr, bv64(0), bv64(9)), addr.payloads['Domain'][1])}, 'Address')
+            ains['host'] = addr.payloads['Domain'][0]
+            apcs = []
+        client = Agg('struct', (Arr(hexkey, 'u8', 56), (bvv(1, 8), 'u8'), addr, Enum(bv64(0), {}, 'CodecState')), 'ClientCodec')
+        items = [Buf('bytesmut', z3.Array('write%d' % i, BV64, BV8), bv64(0), bv64(n)) for i, n in enumerate(sizes)]
+        enc = prog.find_fn(r'^client::trojan::tcp::<impl at [^>]*>::encode$')
+        st0 = dict(case.st0)
+        st0.update({'#client': client, '#dst': Buf('bytesmut', fresh_bytes('dst'), bv64(0), bv64(0))})
+        paths = ex.run(enc, [Ref('#client'), items[0], Ref('#dst')], pcs + apcs, st0=st0)
+        for it in items[1:]:
+            nxt = []
+            for p in paths:
+                if p.status == 'return' and ex.check(p.pcs + [p.ret.disc == 0])[0]:
+                    p.pcs.append(p.ret.disc == 0)
+                    nxt += ex.resume(p, enc, [Ref('#client'), it, Ref('#dst')])
+                else:
+                    ctx.absorb(ex, [p])
+            paths = nxt
+        ex.inputs = {'write%d' % i: items[i] for i in range(len(items))}
+        ex.inputs.update(ains)
+        site = case.fn.name + '@framed'
+        ndone = 0
+        for p in paths:
+            if p.status != 'return' or not ex.check(p.pcs + [p.ret.disc == 0])[0]:
+                ctx.absorb(ex, [p])
+                continue
+            p.pcs.append(p.ret.disc == 0)
+            wb = p.st['#dst']
+            src = Buf('bytesmut', wb.arr, wb.off, wb.len)
+            results = c05.drive(ex, case.fn, case.args, {'#src': src}, [], {}, 3 * nseg + 4, c04.inbound_item, nseg=nseg, start=p)
+            for q, rel, end in results:
+                ctx.absorb(ex, [q])
+                if end == 'calls':
+                    ctx.out.inconclusive.append('decode call bound reached')
+                elif end == 'err':
+                    ctx.prove(ex, q, F, 'what the real Trojan client wrote is refused by the real server decoder', site)
+                elif end == 'quiet':
+                    ndone += 1
+                    ok_first = bool(rel) and rel[0].name == 'ConnectTcp'
+                    ctx.prove(ex, q, T if ok_first else F, 'the Trojan server does not yield a connect item for what the real client wrote', site)
+                    if ok_first:
+                        j = fresh('j', BV64)
+                        ctx.prove(ex, q, c14.addr_equal(ex, q.st, addr, rel[0].fields[1], j), 'the Trojan server would dial a different target than the one requested', site)
+                    prove_concat(ctx, ex, q, [v.fields[0] for v in rel], [(b.arr, b.off, b.len) for b in items], 'bytes released by the Trojan server differ from the bytes written', site)
+        ctx.out.vacuity = [('some composition runs to the end', ndone > 0)]
+        ctx.out.samples.append({'composition': 'client trojan::tcp::ClientCodec::encode -> server trojan::ServerCodec::decode', 'write_sizes': list(sizes), 'segments': nseg, 'address': akind})
+    return job
